@@ -12,6 +12,7 @@ from vmon import env  # noqa: F401
 from vmon.simkit import Top, Mon, simulate, bits, biased_bits, spell_features
 
 from amaranth import Value
+from amaranth.lib.wiring import flipped
 from amaranth_soc import wishbone
 from amaranth_soc.wishbone import Feature
 from amaranth_soc.memory import MemoryMap
@@ -57,6 +58,7 @@ def run_case(case):
     dec = wishbone.Decoder(**omit(rng, "wishbone", addr_width=aw, data_width=dw, granularity=gran,
                                   features=spell_features(rng, dfeat), alignment=case["al"]))
     subs = []
+    port_subs = 0
     for i in range(case["nsubs"]):
         sparse = rng.random() < 0.3 and gbits > 0
         sfeat = {f for f in ALL_FEATURES if rng.random() < 0.5 and (f in dfeat or f in ("lock", "cti", "bte"))}
@@ -74,6 +76,10 @@ def run_case(case):
         sub = wishbone.Interface(addr_width=s_aw, data_width=s_dw, granularity=s_gran, features=spell_features(rng, sfeat),
                                  path=(f"s{i}",))
         sub.memory_map = MemoryMap(addr_width=s_map_aw, data_width=s_gran)
+        if rng.random() < 0.35:
+            # what a peripheral's or nested decoder's own port is: the flipped view of the interface (same signals)
+            sub = flipped(sub)
+            port_subs += 1
         if rng.random() < 0.3:
             try:
                 dec.align_to(rng.randint(0, map_aw))
@@ -99,9 +105,17 @@ def run_case(case):
             # read-only queries on a partly populated decoder must not change what is built later
             mm_ = dec.bus.memory_map
             list(mm_.window_patterns()), list(mm_.windows()), list(mm_.all_resources()), mm_.decode_address(0)
+    xbar = None
     if subs and rng.random() < 0.25:
         other = wishbone.Decoder(addr_width=aw, data_width=dw, granularity=gran, features=dfeat, alignment=case["al"])
-        for sub, sparse, sfeat in subs:
+        # the second master sees the shared peripherals at other base addresses (reverse order, another start)
+        xsubs = list(reversed(subs)) if rng.random() < 0.7 else list(subs)
+        if rng.random() < 0.5:
+            try:
+                other.align_to(rng.randint(1, map_aw))
+            except ValueError:
+                pass
+        for sub, sparse, sfeat in xsubs:
             port = wishbone.Interface(addr_width=sub.addr_width, data_width=sub.data_width, granularity=sub.granularity,
                                       features=sfeat, path=("xbar",))
             port.memory_map = sub.memory_map         # a second port onto the same peripheral (crossbar)
@@ -109,7 +123,7 @@ def run_case(case):
                 other.add(port, sparse=sparse)
             except ValueError:
                 pass
-        mon_other = other
+        xbar = other
     by_map = {id(s.memory_map): (s, sp, sf) for s, sp, sf in subs}
     wins = []
     for w, _n, (s, e, ratio) in dec.bus.memory_map.windows():
@@ -221,8 +235,11 @@ def run_case(case):
                        f"adr {adr} selects nobody but upstream (ack, dat_r, err/rty/stall) = {got}")
             await ctx.tick()
 
-    simulate(Top({"dec": dec}), bench, mon)
+    # the crossbar twin is part of the design and is elaborated before the monitored decoder
+    simulate(Top({"xbar": xbar, "dec": dec} if xbar is not None else {"dec": dec}), bench, mon)
+    mon.count("designs_with_crossbar_twin", int(xbar is not None))
     mon.count("cycles", mon.cycle + 1)
+    mon.count("subordinates_given_as_component_ports", port_subs)
     mon.bin("n_windows", len(wins))
     mon.bin("decoder_features", tuple(sorted(dfeat)))
     for w in wins:
